@@ -34,8 +34,20 @@ def report(ctx, bad, texts, label):
                       {"event": ev, "json_text": texts.get(line), "diagnosis": diag, "source": label})
 
 
+def report_docs(ctx, bad, failing):
+    for line, diag, ev in bad:
+        full = failing.get(line, {})
+        what = "panics" if ev["res"] == "panic" else "does not return (%s)" % ev["res"]
+        ctx.violation("from_str %s: %s" % (what, ev["kind"]),
+                      "from_str %s [%s] on %s" % (what, ev.get("msg", "")[:200], (full.get("doc") or ev.get("doc", ""))[:400]),
+                      {"event": ev, "document": full.get("doc", ev.get("doc")), "panic_message": full.get("msg", ev.get("msg"))})
+
+
 def run(ctx):
     q = ctx.quick
+    if getattr(ctx, "replay", None):
+        return J.replay(ctx, "rt", lambda bad, texts, label: report(ctx, bad, texts, label),
+                        lambda bad, failing: report_docs(ctx, bad, failing))
     ctx.level = "model_checking"
     ctx.rule = ("TLC enumerates abstract data sets (34 VRs x in-memory representations x multiplicity 0..3 x value alphabets incl. "
                 "negative numbers, 64-bit extremes, non-finite floats; sequences nested to depth 2) and judges from_str(to_string(ds)) "
@@ -51,63 +63,49 @@ def run(ctx):
         "hang guard: 20 s per document in a watchdog thread",
     ]
     vlib.build_harness(["drv_json"])
-    J.model_check(ctx)
+    r = vlib.tlc(J.SPEC, "MC_DicomJson", "MC_DicomJson.cfg", workers=1, timeout=600, coverage=False)
+    ctx.check_model(r, "test vectors of the Annex F operators")
     cases, n = J.generate(ctx)
 
-    out = ctx.path("cases")
-    rep = vlib.run_driver("drv_json", ["cases", "--cases", cases, "--out", out], env=ctx.env())
-    bad, nev = J.judge(ctx, rep["events_path"], "rt")
-    report(ctx, bad, J.texts_of(rep["texts_path"]), "TLC-generated data set")
-    ctx.cov["evaluations"] += rep["cases"]
-    ctx.cov["distinct_nontrivial"] += rep["nontrivial"]
+    rep = vlib.run_driver("drv_json", ["cases", "--cases", cases, "--out", ctx.path("cases")], env=ctx.env())
+    rep2 = vlib.run_driver("drv_json", ["random", "--n", 400 if q else 30000, "--out", ctx.path("random")], env=ctx.env())
+    rep3 = vlib.run_driver("drv_json", ["fuzz", "--n", 3000 if q else 200000, "--cases", cases, "--out", ctx.path("fuzz")],
+                           env=ctx.env(), timeout=3000)
+
+    def corrupt_rt(e):           # one tag of the data set that came back changed
+        if e.get("rt") != "ok" or not e["rtds"]:
+            return False
+        e["rtds"][0]["e"] = (e["rtds"][0]["e"] + 1) % 65536
+        return True
+
+    def corrupt_parse(e):        # a call recorded as not having returned
+        e["res"] = "panic"
+        return True
+
+    L1, L2, L3 = "TLC-generated data set", "seeded random data set", "malformed document"
+    bad, nev = J.judge_all(ctx, "rt", [(L1, rep["events_path"]), (L2, rep2["events_path"]), (L3, rep3["events_path"])],
+                           [(L1, corrupt_rt), (L3, corrupt_parse)])
+    report(ctx, bad[L1], J.texts_of(rep["texts_path"]), L1)
+    report(ctx, bad[L2], J.texts_of(rep2["texts_path"]), L2)
+    report_docs(ctx, bad[L3], {r["line"]: r for r in vlib.read_ndjson(rep3["failing_path"])})
+    ctx.cov["evaluations"] += rep["cases"] + rep2["cases"] + rep3["cases"]
+    ctx.cov["distinct_nontrivial"] += rep["nontrivial"] + rep2["cases"] + rep3["events"]
     ctx.cov["traces_validated_against_impl"] += nev
     ctx.extra_cov["vr_representation_pairs"] = rep["vr_reps"]
     ctx.extra_cov["drift_from_NormJson"] = rep["drift_norm"]
-    if rep["drift_norm"] > len(bad):
+    ctx.extra_cov["malformed_documents"] = {"hand_written_families": rep3["systematic"], "results": rep3["results"]}
+    if rep["drift_norm"] > len(bad[L1]):
         ctx.note("drift: %d round trips differ from the implementation-shaped NormJson(ds) but are equal up to the documented "
-                 "normalisations; first: %s" % (rep["drift_norm"] - len(bad),
+                 "normalisations; first: %s" % (rep["drift_norm"] - len(bad[L1]),
                                                 json.dumps([m for m in rep["mismatches"] if m["kind"] == "norm"][:1])[:600]))
     with open(cases) as f:
         for i, ln in enumerate(f):
             if i in (11, n // 2, n - 3):
                 c = json.loads(ln)
                 ctx.sample({"ds": c["ds"], "expected_after_round_trip": c["norm"]})
-
-    out2 = ctx.path("random")
-    rep2 = vlib.run_driver("drv_json", ["random", "--n", 400 if q else 6000, "--out", out2], env=ctx.env())
-    bad2, nev2 = J.judge(ctx, rep2["events_path"], "rt")
-    report(ctx, bad2, J.texts_of(rep2["texts_path"]), "seeded random data set")
-    ctx.cov["evaluations"] += rep2["cases"]
-    ctx.cov["distinct_nontrivial"] += rep2["cases"]
-    ctx.cov["traces_validated_against_impl"] += nev2
-
-    # never panics
-    out3 = ctx.path("fuzz")
-    rep3 = vlib.run_driver("drv_json", ["fuzz", "--n", 3000 if q else 60000, "--cases", cases, "--out", out3], env=ctx.env(),
-                           timeout=3000)
-    bad3, nev3 = J.judge(ctx, rep3["events_path"], "rt")
-    failing = {r["line"]: r for r in vlib.read_ndjson(rep3["failing_path"])}
-    for line, diag, ev in bad3:
-        full = failing.get(line, {})
-        what = "panics" if ev["res"] == "panic" else "does not return (%s)" % ev["res"]
-        ctx.violation("from_str %s: %s" % (what, ev["kind"]),
-                      "from_str %s [%s] on %s" % (what, ev.get("msg", "")[:200], (full.get("doc") or ev.get("doc", ""))[:400]),
-                      {"event": ev, "document": full.get("doc", ev.get("doc")), "panic_message": full.get("msg", ev.get("msg"))})
-    ctx.cov["evaluations"] += rep3["cases"]
-    ctx.cov["distinct_nontrivial"] += rep3["events"]
-    ctx.cov["traces_validated_against_impl"] += nev3
-    ctx.extra_cov["malformed_documents"] = {"hand_written_families": rep3["systematic"], "results": rep3["results"]}
     ctx.sample({"malformed_document_results": rep3["results"]})
-
-    def corrupt(e):
-        if e.get("rt") != "ok" or not e["rtds"]:
-            return False
-        e["rtds"][0]["e"] = (e["rtds"][0]["e"] + 1) % 65536
-        return True
-    J.selftest(ctx, rep["events_path"], "rt", corrupt)
-
-    def corrupt_parse(e):
-        e["res"] = "panic"
-        return True
-    J.selftest(ctx, rep3["events_path"], "rt", corrupt_parse)
     ctx.exhaustive = False
+
+
+def replay(ctx, obj):
+    run(ctx)
